@@ -366,8 +366,8 @@ pub fn expected(op: &Op, vals: &[Val]) -> Result<String, String> {
         }
         Route::KeyDisplay => fixture::reference(declared(op.idx, loc).1, loc, &vals[op.val]).map(|s| format!("{}|{s}", declared(op.idx, loc).0)),
         Route::KeyF64 => {
-            let fd = fixture::f64_to_fixed(fixture::F64S[op.val % fixture::F64S.len()]);
-            fixture::reference_with_decimal(declared(op.idx, loc).1, loc, &fd).map(|s| format!("{}|{s}", declared(op.idx, loc).0))
+            fixture::f64_to_fixed(fixture::F64S[op.val % fixture::F64S.len()])
+                .and_then(|fd| fixture::reference_with_decimal(declared(op.idx, loc).1, loc, &fd).map(|s| format!("{}|{s}", declared(op.idx, loc).0)))
         }
         Route::PluralMacro => fixture::reference_plural_category(op.idx == 1, loc, COUNTS[op.val % COUNTS.len()]).map(String::from),
         Route::Site => fixture::reference(SITES[op.idx].spec, loc, &vals[op.val]),
